@@ -14,11 +14,22 @@ LAYERS = {
         'shards': {'quick': 1, 'thorough': 12},
         'crash_props': ['C18'],
     },
+    'l2': {
+        'n': {'quick': 2500, 'thorough': 30000},
+        'shards': {'quick': 1, 'thorough': 12},
+        'extra': {'quick': [], 'thorough': ['-conc', '4']},
+        'crash_props': ['C18'],
+    },
+    'l4': {
+        'n': {'quick': 3000, 'thorough': 40000},
+        'shards': {'quick': 1, 'thorough': 8},
+        'crash_props': ['C18'],
+    },
 }
 
 PROPS = {
     'C01': {
-        'layers': ['l1'],
+        'layers': ['l1', 'l2'],
         'modelled_not_verified': ["UTF-8 decoding is proved to satisfy the decoder assumptions (DecOK) but its equality with Go's "
                                   "utf8.DecodeRuneInString is checked by correspondence only",
                                   "strings.EqualFold on the two ASCII keywords is modelled as ASCII case folding",
@@ -37,3 +48,31 @@ PROPS = {
         'assumptions': [],
     },
 }
+
+PARSER_NOTE = ("Trusted: Lean kernel; model is a hand port of parser.go validated per run by the L1 correspondence (segments, raw text, "
+               "error line/column/message) on generated queries; theorems assume DecOK of the decoder (proved for the model's decodeRune) and, "
+               "where stated, ClassOK (newline is not a letter/digit); the decoder's equality with Go's utf8 and EqualFold->ASCII folding are "
+               "checked by correspondence only")
+
+CLAIMED = {
+    'C01': {
+        'text': "Proved in Lean for every byte string, decoder satisfying DecOK and classifier: the parser model's nodes tile the input "
+                "(c01_parse_tiling, c01_spans_chain, restore discipline lemmas); the model is tied to parser.go by per-run differential "
+                "correspondence (L1: nodes; L2: SQL at the driver, bypass chunks verbatim and in order). Proof is the right level because the property "
+                "quantifies over all byte strings and the defect class (a helper that consumes without restoring) is invisible to sampled tests.",
+        'note': PARSER_NOTE + "; the expansion side (render) is covered by the L2 model correspondence, its theorems are registered under C03-C05",
+        'technique': 'Lean 4 proof over executable parser model (invariants, restore discipline) + differential correspondence',
+        'design_ref': 'DESIGN.md section 5 C01, Appendix A',
+    },
+    'C19': {
+        'text': "Proved in Lean for every input: every parse error of the model has a (line, column) that is the position of an offset inside the text "
+                "and shows the line iff the input is multi-line (c19_error_position_partial under ClassOK, plus the classifier-free variant and a "
+                "machine-checked counterexample showing ClassOK is needed). Newline-shift equivariance is checked on the implementation for k in {1,2,7} "
+                "on every generated query by the holds-predicate and is being proved (see DESIGN).",
+        'note': PARSER_NOTE,
+        'technique': 'Lean 4 proof (line-bookkeeping invariant through every parse function) + differential correspondence on (q, newline-prefixed q)',
+        'design_ref': 'DESIGN.md section 5 C19',
+    },
+}
+
+NOT_CLAIMED_REASON = {}
